@@ -404,9 +404,14 @@ async fn good_client(port: u16, proxied: bool, wait_ms: u64) -> (String, u64) {
 
 /// kind "login": the well-behaved client is a player ("Victim") who logs in completely and is transferred.
 async fn good_client_kind(port: u16, proxied: bool, wait_ms: u64, kind: &str, src: &str) -> (String, u64) {
+    good_client_from(port, proxied, wait_ms, kind, src, None).await
+}
+
+/// `local`: the loopback address the client connects from (its TCP peer address; matters when the PROXY protocol is off)
+async fn good_client_from(port: u16, proxied: bool, wait_ms: u64, kind: &str, src: &str, local: Option<IpAddr>) -> (String, u64) {
     let started = Instant::now();
     let mut outcome = "connect-error".to_string();
-    if let Ok(mut t) = Tcp::connect(SocketAddr::new("127.0.0.1".parse().unwrap(), port), None).await {
+    if let Ok(mut t) = Tcp::connect(SocketAddr::new("127.0.0.1".parse().unwrap(), port), local).await {
         if proxied {
             let from = label_addr(src);
             let dst: SocketAddr = if from.is_ipv4() { format!("10.0.0.1:{port}").parse().unwrap() } else { format!("[2001:db8::1]:{port}").parse().unwrap() };
@@ -589,13 +594,13 @@ async fn run_c16(sc: &Value) -> Value {
     tokio::time::sleep(Duration::from_millis(200)).await;
     let good_kind = sc["goodKind"].as_str().unwrap_or("status").to_string();
     let (outcome, latency) = if sc["cfg"]["bigStatus"].as_bool().unwrap_or(false) { ("served".to_string(), 0) } else { good_client_kind(run.port, proxied, 4000, &good_kind, sc["goodSrc"].as_str().unwrap_or("ipA")).await };
-    // ... and a second well-behaved client right behind the first (from another address: its own budget), while the others are still parked:
+    // ... and a second well-behaved client right behind the first (from another address, announced or -- without the PROXY protocol -- as TCP peer: its own budget), while the others are still parked:
     // one connection that finished must not change anything for the next one.  Reported as the worse of the two.
     let (outcome, latency) = if sc["cfg"]["bigStatus"].as_bool().unwrap_or(false) || outcome != "served" {
         (outcome, latency)
     } else {
         let second_src = if sc["goodSrc"].as_str().unwrap_or("ipA") == "ipA" { "ip6" } else { "ipA" };
-        let (o2, l2) = good_client_kind(run.port, proxied, 4000, "status", second_src).await;
+        let (o2, l2) = good_client_from(run.port, proxied, 4000, "status", second_src, Some("127.0.0.4".parse().unwrap())).await;
         if o2 == "served" { (outcome, latency.max(l2)) } else { (format!("second:{o2}"), l2) }
     };
     // a second well-behaved client after a quiet period in which the server gave up on the parked ones (their deadline passed)
